@@ -37,11 +37,47 @@ def cases(seed, tier):
             out.append({"name": "sys/cfg%d/%s" % (ci, name), "code": code, "config": cfg})
     n_random = 1500 if tier == "quick" else 30000
     for i in range(n_random):
-        g = gen.Gen(rng, max_depth=rng.choice([3, 4, 5, 6]), multiline=rng.random() < 0.3)
+        reserved = "__datadog_p_%d" % rng.randint(0, 3) if rng.random() < 0.06 else None
+        g = gen.Gen(rng, max_depth=rng.choice([3, 4, 5, 6]), multiline=rng.random() < 0.3, reserved=reserved)
         code = g.program()
         cfg = gen.rand_config(rng, force_full=rng.random() < 0.4)
         out.append({"name": "rnd/%d" % i, "code": code, "config": cfg})
+    # reserved-prefix identifiers planted in every kind of position (C06: refuse or stay clear)
+    for k, (pn, tmpl) in enumerate(RESERVED_PLACEMENTS):
+        for idx in (0, 1, 7):
+            nm = "__datadog_p_%d" % idx
+            out.append({"name": "rsv/%s/%d" % (pn, idx), "code": tmpl.replace("RSV", nm), "config": FULL_CFG})
     return out
+
+
+RESERVED_PLACEMENTS = [
+    ("ref_in_block", "function m(a, b) { const c = a + b(); return RSV; }"),
+    ("decl_in_block", "function m(a, b) { let RSV = 1; return a + b(); }"),
+    ("param_nested_fn", "function m(a, b) { function n(RSV) { return a + RSV(); } }"),
+    ("param_top_fn", "function m(RSV, a) { return a + m(); }"),
+    ("param_method_top", "class C { m(RSV, a) { return a + this.m(); } }"),
+    ("catch_param", "function m(a, b) { try { x(); } catch (RSV) { return a + b(); } }"),
+    ("catch_param_top", "try { x(); } catch (RSV) { y = a + b(); }"),
+    ("arrow_param", "function m(a, b) { return (RSV) => a + b(); }"),
+    ("arrow_param_body_use", "function m(a, b) { return (RSV) => RSV + b(); }"),
+    ("label", "function m(a, b) { RSV: for (;;) { v = a + b(); break RSV; } }"),
+    ("fn_name", "function m(a, b) { function RSV() {} return a + b(); }"),
+    ("class_name", "function m(a, b) { class RSV {} return a + b(); }"),
+    ("delete_operand", "function m(a, b) { delete RSV.x; return a + b(); }"),
+    ("tpl_literal_subst", "function m(a, b) { v = `${1}${RSV}`; return a + b(); }"),
+    ("else_branch", "function m(a, b) { if (a) x(); else v = RSV; return a + b(); }"),
+    ("member_prop", "function m(a, b) { return a.RSV + b(); }"),
+    ("object_key", "function m(a, b) { return { RSV: 1 }.x + b(); }"),
+    ("shorthand", "function m(a, b) { return { RSV }.x + b(); }"),
+    ("outer_block", "function m(a, b) { let RSV = 2; { return a + b(); } }"),
+    ("inner_block", "function m(a, b) { { RSV(); } return a + b(); }"),
+    ("closure_ref", "function m(a, b) { const c = a + b(); return function () { return RSV; }; }"),
+    ("top_level_let", "let RSV; function m(a, b) { return a + b(); }"),
+    ("import_binding", "import RSV from 'm'; export function m(a, b) { return a + b(); }"),
+    ("destructuring", "function m(a, b) { const { x: RSV } = a; return a + b(); }"),
+    ("for_of_binding", "function m(a, b) { for (const RSV of a) { v = a + b(); } }"),
+    ("no_temps_needed", "function m(a, b) { return RSV + a; }"),
+]
 
 
 def spec_hash():
@@ -65,37 +101,50 @@ def run(seed, tier, extra_cases=None, use_cache=True):
     cs = extra_cases if extra_cases is not None else cases(seed, tier)
     reqs = []
     for i, c in enumerate(cs):
-        reqs.append({"id": str(i), "code": c["code"], "file": c.get("file", "/w/src/test.js"),
-                     "config": c["config"], "want": WANT})
+        rq = {"id": str(i), "code": c["code"], "file": c.get("file", "/w/src/test.js"),
+              "config": c["config"], "want": [] if c.get("mode") == "total" else WANT}
+        if "reader" in c:
+            rq["reader"] = c["reader"]
+        reqs.append(rq)
     resps = vlib.run_requests(reqs, nproc=vlib.NCPU)
     t1 = time.time()
     recs = []
     bycase = {}
     outcomes = {}
+    v8jobs = []
     for i, (c, rq, rs) in enumerate(zip(cs, reqs, resps)):
         rid = "r%d" % i
         outcomes[rs.get("outcome", "abort")] = outcomes.get(rs.get("outcome", "abort"), 0) + 1
-        bycase[rid] = {"name": c["name"], "code": c["code"], "config": c["config"], "outcome": rs.get("outcome"),
+        bycase[rid] = {"name": c["name"], "code": c["code"], "config": c["config"], "file": rq["file"],
+                       "reader": c.get("reader"), "outcome": rs.get("outcome"),
                        "error": rs.get("error"), "content": rs.get("content"), "metrics": rs.get("metrics")}
-        if rs.get("outcome") != "ok":
-            continue
         rec = vlib.static_record(rid, rq, rs)
-        if rec["outcome"] != "ok":
-            bycase[rid]["outcome"] = rec["outcome"]
-            continue
         recs.append(rec)
+        if rec.get("status") == "modified":
+            kind = "module" if rec["kind_in"] == "Module" else "script"
+            v8jobs.append({"id": rid + "/in", "kind": kind, "code": c["code"]})
+            v8jobs.append({"id": rid + "/out", "kind": kind, "code": rs.get("content", "")})
     t2 = time.time()
-    vlib.log("static pipeline: %d cases, %d records (outcomes %s); driver %.1fs normalise %.1fs" %
-             (len(cs), len(recs), outcomes, t1 - t0, t2 - t1))
-    verdicts, st = vlib.validate_trace("TraceStatic", "TraceStatic.cfg", recs, "static")
+    v8 = vlib.run_node_jobs("syntax.js", v8jobs)
+    for rec in recs:
+        if rec.get("status") == "modified":
+            a, b = v8.get(rec["rid"] + "/in"), v8.get(rec["rid"] + "/out")
+            rec["v8_in"] = "skip" if a is None else ("ok" if a["ok"] else "err")
+            rec["v8_out"] = "skip" if b is None else ("ok" if b["ok"] else "err")
+            if b is not None and not b["ok"]:
+                bycase[rec["rid"]]["v8_error"] = b["error"]
     t3 = time.time()
-    vlib.log("static pipeline: TLC validated %d records in %.1fs" % (len(recs), t3 - t2))
+    vlib.log("static pipeline: %d cases (outcomes %s); driver %.1fs normalise %.1fs v8 %.1fs (%d compiles)" %
+             (len(cs), outcomes, t1 - t0, t2 - t1, t3 - t2, len(v8jobs)))
+    verdicts, st = vlib.validate_trace("TraceStatic", "TraceStatic.cfg", recs, "static")
+    t4 = time.time()
+    vlib.log("static pipeline: TLC validated %d records in %.1fs" % (len(recs), t4 - t3))
     byprop = {}
     for rid, prop, v, detail in verdicts:
         byprop.setdefault(prop, []).append((rid, v, detail))
     res = {"verdicts": byprop, "cases": bycase, "stats": {
         "cases": len(cs), "records": len(recs), "outcomes": outcomes, "tlc_states": st["states"],
-        "tlc_distinct": st["distinct"], "wall": t3 - t0}}
+        "tlc_distinct": st["distinct"], "v8_compiles": len(v8jobs), "wall": t4 - t0}}
     if extra_cases is None:
         os.makedirs(vlib.WORK, exist_ok=True)
         json.dump(res, open(cache, "w"))
